@@ -5,5 +5,6 @@ DocMode = FALSE
 Vocab <- VocabFrag
 TextKinds <- TK6
 OptSets <- Opts4
+Bugs <- NoBugs
 INVARIANTS BuilderSound DesignRefines EmitToks
 CHECK_DEADLOCK FALSE
